@@ -97,6 +97,8 @@ type mOp struct {
 	Rows    []mRow  `json:"rows,omitempty"`
 	Pick    []int   `json:"pick,omitempty"`
 	Query   *mQuery `json:"query,omitempty"`
+	Slot    int     `json:"slot,omitempty"` // qopen / qdrain: which pinned query
+	Seg     int64   `json:"seg,omitempty"`  // write: segment id of the memory part (liaison write queue style)
 	// wide: N series with one row each (forces several primary blocks in one part)
 	WideN    int   `json:"wide_n,omitempty"`
 	WideBase int   `json:"wide_base,omitempty"`
@@ -350,11 +352,13 @@ func (tb *l1Table) close() {
 	}
 }
 
-func (tb *l1Table) write(sc mSchema, rows []mRow) {
+func (tb *l1Table) write(sc mSchema, rows []mRow) { tb.writeSeg(sc, rows, 0) }
+
+func (tb *l1Table) writeSeg(sc mSchema, rows []mRow, seg int64) {
 	if len(rows) == 0 {
 		return
 	}
-	tb.tst.mustAddDataPoints(toDataPoints(sc, rows))
+	tb.tst.mustAddDataPointsWithSegmentID(toDataPoints(sc, rows), seg, nil)
 }
 
 func (tb *l1Table) flushAll() int {
@@ -480,8 +484,9 @@ func schemaTagTypes(sc mSchema) map[string]pbv1.ValueType {
 	return m
 }
 
-// scanParts runs the engine's block iteration + queryResult merge over the given parts.
-func scanParts(parts []*part, sc mSchema, q mQuery) (rows []outRow, chunks [][]int, err error) {
+// buildResult pins nothing by itself: it creates the block cursors over the given parts (the
+// engine's searchBlocks step); drainResult then loads the blocks and merges them (Pull).
+func buildResult(parts []*part, sc mSchema, q mQuery) (*queryResult, error) {
 	var sids []common.SeriesID
 	for _, s := range q.Sids {
 		sids = append(sids, common.SeriesID(s))
@@ -497,9 +502,9 @@ func scanParts(parts []*part, sc mSchema, q mQuery) (rows []outRow, chunks [][]i
 	minTS, maxTS := tsOf(q.MinT), tsOf(q.MaxT)
 	ti.init(parts, sids, minTS, maxTS)
 	if ti.Error() != nil {
-		return nil, nil, ti.Error()
+		return nil, ti.Error()
 	}
-	var result queryResult
+	result := &queryResult{}
 	result.ctx = context.TODO()
 	opts := queryOptions{minTimestamp: minTS, maxTimestamp: maxTS, schemaTagTypes: schemaTagTypes(sc)}
 	for fi, f := range sc.Fams {
@@ -528,7 +533,7 @@ func scanParts(parts []*part, sc mSchema, q mQuery) (rows []outRow, chunks [][]i
 		result.data = append(result.data, bc)
 	}
 	if ti.Error() != nil {
-		return nil, nil, ti.Error()
+		return nil, ti.Error()
 	}
 	result.sidToIndex = map[common.SeriesID]int{}
 	for i, s := range original {
@@ -540,6 +545,10 @@ func scanParts(parts []*part, sc mSchema, q mQuery) (rows []outRow, chunks [][]i
 	case "desc":
 		result.orderByTS, result.ascTS = true, false
 	}
+	return result, nil
+}
+
+func drainResult(result *queryResult) (rows []outRow, chunks [][]int, err error) {
 	defer result.Release()
 	for {
 		r := result.Pull()
@@ -572,6 +581,51 @@ func scanParts(parts []*part, sc mSchema, q mQuery) (rows []outRow, chunks [][]i
 		chunks = append(chunks, chunk)
 	}
 	return rows, chunks, nil
+}
+
+// scanParts runs the engine's block iteration + queryResult merge over the given parts.
+func scanParts(parts []*part, sc mSchema, q mQuery) (rows []outRow, chunks [][]int, err error) {
+	result, err := buildResult(parts, sc, q)
+	if err != nil {
+		return nil, nil, err
+	}
+	return drainResult(result)
+}
+
+// openQuery is a query that has pinned its snapshot and built its cursors but not read any block.
+type openQuery struct {
+	result *queryResult
+	snap   *snapshot
+	q      mQuery
+	sc     mSchema
+	want   *mModel
+}
+
+func (tb *l1Table) qopen(sc mSchema, q mQuery, m *mModel) (*openQuery, error) {
+	s := tb.tst.currentSnapshot()
+	if s == nil {
+		return nil, nil
+	}
+	pp, _ := s.getParts(nil, storage.NewShardCache("g", 0, 0), tsOf(q.MinT), tsOf(q.MaxT))
+	r, err := buildResult(pp, sc, q)
+	if err != nil {
+		s.decRef()
+		return nil, err
+	}
+	return &openQuery{result: r, snap: s, q: q, sc: sc, want: m.clone()}, nil
+}
+
+func (oq *openQuery) drain() ([]outRow, [][]int, error) {
+	defer oq.snap.decRef()
+	return drainResult(oq.result)
+}
+
+func (m *mModel) clone() *mModel {
+	c := newModel()
+	for k, e := range m.data {
+		c.data[k] = &modelEntry{ver: e.ver, rows: append([]modelRow(nil), e.rows...)}
+	}
+	return c
 }
 
 func (tb *l1Table) query(sc mSchema, q mQuery) ([]outRow, [][]int, error) {
@@ -847,6 +901,26 @@ func (tb *l1Table) allPartInvariants() error {
 	for _, pw := range s.parts {
 		if err := partInvariants(pw.p); err != nil {
 			return err
+		}
+	}
+	return nil
+}
+
+func (tb *l1Table) memGroupsMerged() error {
+	s := tb.tst.currentSnapshot()
+	if s == nil {
+		return nil
+	}
+	defer s.decRef()
+	perSeg := map[int64][]uint64{}
+	for _, pw := range s.parts {
+		if pw.mp != nil {
+			perSeg[pw.mp.segmentID] = append(perSeg[pw.mp.segmentID], pw.ID())
+		}
+	}
+	for seg, ids := range perSeg {
+		if len(ids) >= 2 {
+			return fmt.Errorf("after merging memory parts, memory parts %v of segment %d are still in the snapshot next to the merged part", ids, seg)
 		}
 	}
 	return nil
